@@ -40,6 +40,7 @@ const F_REWIRED: usize = 1;
 const F_OUTPUT_MOVED: usize = 2;
 const F_NODE_REPLACED: usize = 3;
 const F_CAPACITY_TIGHT: usize = 4;
+const F_FAILED_CALL: usize = 5;
 
 const P_EIGHT_NODES: usize = 0;
 const P_ARMED_10: usize = 1;
@@ -118,7 +119,8 @@ fn drive<W: Wrap, G: GraphLike<W>>(src: &mut Source, obs: &mut Observer) -> Resu
             }
             let w = [0u32, 0, 0, 12, if edges_n > 0 { 2 } else { 0 }, 2, 1];
             Some(match r.weighted(&w) as u8 {
-                O_PROCESS => Op::ka(O_PROCESS, if r.chance(2, 3) { last_out.unwrap_or(0) as i64 } else { r.range(0, live_n as i64 - 1) }),
+                // b = 1: a failed call (no node for the index: the documented panic, caught by the host) precedes it
+                O_PROCESS => Op::kab(O_PROCESS, if r.chance(2, 3) { last_out.unwrap_or(0) as i64 } else { r.range(0, live_n as i64 - 1) }, r.chance(1, 8) as i64),
                 O_REWIRE_REMOVE => Op::ka(O_REWIRE_REMOVE, r.range(0, edges_n as i64 - 1)),
                 O_REWIRE_ADD => Op::kab(O_REWIRE_ADD, r.range(0, live_n as i64 - 1), r.range(0, live_n as i64 - 1)),
                 _ => Op::new(O_REPLACE_NODE, r.range(0, live_n as i64 - 1), r.range(0, N_KINDS - 1), r.range(0, 4000)),
@@ -307,6 +309,17 @@ fn drive<W: Wrap, G: GraphLike<W>>(src: &mut Source, obs: &mut Observer) -> Resu
                 if stack_outgrown {
                     obs.probe(P_STACK_BEYOND_NODES);
                 }
+                if op.b == 1 {
+                    // crash injection (unarmed: unwinding itself may use the heap): a process() call that
+                    // fails — here the documented panic for an index without a node — is caught by the host,
+                    // which keeps graph and processor; the graph's size has not changed, so the steady-state
+                    // promise still covers the calls that follow
+                    let missing = NodeIndex::new(m.slots.len() + 7);
+                    let r = std::panic::catch_unwind(std::panic::AssertUnwindSafe(|| g.run(proc_, missing)));
+                    if r.is_err() {
+                        obs.fault(F_FAILED_CALL);
+                    }
+                }
                 let ((), seen) = armed(|| g.run(proc_, NodeIndex::new(out)));
                 stack_cap = stack_cap.max(need_stack);
                 inputs_cap = inputs_cap.max(need_inputs);
@@ -375,6 +388,7 @@ impl Scenario for GraphAllocScenario {
             "output node moved before an armed process()",
             "node replaced (remove + add, same count) before an armed process()",
             "processor capacity exactly the node count",
+            "a failed process() call (missing index: documented panic, caught by the host) right before an armed one",
         ]
     }
     fn probes(&self) -> &'static [&'static str] {
